@@ -144,12 +144,14 @@ variable (T : Nat) (d : Nat) (m : MMetaSlab (MTree r d)) (x : Option DX) (child 
   (m' : MMetaSlab (MTree r d)) (c' : Ctx) (hh : mrm_MorHeld s d m child k) (hck : m.children[k]? = some child)
 include hh hck
 
+omit hh in
 theorem mtm_leafRebR (y : MTree r d) (hy : m.children[k + 1]? = some y)
     (h : MMetaSlab.rebalanceChildren T m child y k (k + 1) true s.ctx = .ok (m', c')) :
     mtm_IdPost (mrm_rebHeapOf T d m x child y k (k + 1) true s) d m m' :=
   ⟨(mrm_rebalanceChildren_ok T d m child y k (k + 1) true s.ctx m' c' h).2,
     Or.inl (mtm_ids_rebalanceChildren T d m child y k true s.ctx m' c' hck hy h)⟩
 
+omit hh in
 theorem mtm_leafRebL (l : MTree r d) (hk0 : 0 < k) (hl : m.children[k - 1]? = some l)
     (h : MMetaSlab.rebalanceChildren T m l child (k - 1) k false s.ctx = .ok (m', c')) :
     mtm_IdPost (mrm_rebHeapOf T d m x l child (k - 1) k false s) d m m' := by
@@ -192,7 +194,7 @@ theorem mtm_mor_idpost (u : Nat)
         · rw [if_neg hk] at hx; cases hx
       simp only [Bool.false_or]
       split
-      · exact mtm_leafRebR T d m x child k s m' c' hh hck y hy
+      · exact mtm_leafRebR T d m x child k s m' c' hck y hy
       · exact mtm_leafMrgR d m x child k s m' c' hh hck y hy
   | some l =>
     have hkl : 0 < k ∧ m.children[k - 1]? = some l := by
@@ -204,7 +206,7 @@ theorem mtm_mor_idpost (u : Nat)
     | none =>
       simp only [Bool.or_false]
       split
-      · exact mtm_leafRebL T d m x child k s m' c' hh hck l hk0 hl'
+      · exact mtm_leafRebL T d m x child k s m' c' hck l hk0 hl'
       · exact mtm_leafMrgL d m x child k s m' c' hh hck l hk0 hl'
     | some y =>
       have hy : m.children[k + 1]? = some y := by
@@ -214,11 +216,132 @@ theorem mtm_mor_idpost (u : Nat)
       simp only []
       repeat' split
       all_goals first
-        | exact mtm_leafRebR T d m x child k s m' c' hh hck y hy
+        | exact mtm_leafRebR T d m x child k s m' c' hck y hy
         | exact mtm_leafMrgR d m x child k s m' c' hh hck y hy
-        | exact mtm_leafRebL T d m x child k s m' c' hh hck l hk0 hl'
+        | exact mtm_leafRebL T d m x child k s m' c' hck l hk0 hl'
         | exact mtm_leafMrgL d m x child k s m' c' hh hck l hk0 hl'
 
 end idpost
+
+/-! ### from `mds_Pre` to the hypotheses of the heap theorems, and from their conclusions to `mds_Post` -/
+
+section assemble
+variable {r : Nat}
+
+theorem mtm_nodup_of_mem {α β : Type} (f : α → List β) : ∀ (l : List α), (l.flatMap f).Nodup → ∀ c ∈ l, (f c).Nodup
+  | [], _, c, hc => by cases hc
+  | x :: xs, h, c, hc => by
+    rw [List.flatMap_cons, List.nodup_append] at h
+    rcases List.mem_cons.1 hc with e | hin
+    · subst e; exact h.1
+    · exact mtm_nodup_of_mem f xs h.2.1 c hin
+
+theorem mtm_disj_lt {α β : Type} (f : α → List β) : ∀ (l : List α), (l.flatMap f).Nodup →
+    ∀ (i j : Nat) (a b : α), i < j → l[i]? = some a → l[j]? = some b → ∀ x ∈ f a, x ∉ f b
+  | [], _, i, j, a, b, _, ha, _ => by simp at ha
+  | c :: cs, h, 0, j + 1, a, b, _, ha, hb => by
+    rw [List.flatMap_cons, List.nodup_append] at h
+    have e : c = a := by simpa using ha
+    subst e
+    have hb' : cs[j]? = some b := by simpa using hb
+    intro x hx hxb
+    exact h.2.2 x hx x (List.mem_flatMap.mpr ⟨b, List.mem_of_getElem? hb', hxb⟩) rfl
+  | c :: cs, h, i + 1, j + 1, a, b, hij, ha, hb => by
+    rw [List.flatMap_cons, List.nodup_append] at h
+    exact mtm_disj_lt f cs h.2.1 i j a b (by omega) (by simpa using ha) (by simpa using hb)
+  | c :: cs, _, i + 1, 0, a, b, hij, _, _ => by omega
+  | c :: cs, _, 0, 0, a, b, hij, _, _ => by omega
+
+theorem mtm_disj {α β : Type} (f : α → List β) (l : List α) (h : (l.flatMap f).Nodup)
+    (i j : Nat) (a b : α) (hij : i ≠ j) (ha : l[i]? = some a) (hb : l[j]? = some b) : ∀ x ∈ f a, x ∉ f b := by
+  rcases Nat.lt_or_gt_of_ne hij with hlt | hgt
+  · exact mtm_disj_lt f l h i j a b hlt ha hb
+  · intro x hx hxb
+    exact mtm_disj_lt f l h j i b a hgt hb ha x hxb hx
+
+theorem mtm_at_eq {d : Nat} (m : MMetaSlab (MTree r d)) (child : MTree r d) (k j : Nat)
+    (hck : m.children[k]? = some child) : mrm_at m child k j = m.children[j]? := by
+  simp only [mrm_at]
+  split
+  · rename_i e; rw [e, hck]
+  · rfl
+
+/-- the hypothesis of the heap-post theorems from what the descent guarantees before a restructuring call -/
+theorem mtm_MorHeld_of_Pre {Q : (d : Nat) → MTree r d → Prop} {addr : Nat} {s1 : MHSt r} {d : Nat}
+    {m1 : MMetaSlab (MTree r d)} (hp : mds_Pre Q addr s1 d m1) (child : MTree r d) (k : Nat)
+    (hck : m1.children[k]? = some child) : mrm_MorHeld s1 d m1 child k := by
+  have hids : md_ids (d + 1) m1 = m1.hdr.id :: m1.children.flatMap (md_ids d) := rfl
+  have hnd := hp.nodup
+  rw [hids, List.nodup_cons] at hnd
+  refine ⟨mrm_MHolds_kids _ d child none (hp.held child (List.mem_of_getElem? hck)),
+    fun j c _ hj => hp.held c (List.mem_of_getElem? hj), fun j c hj hin => ?_, fun i j a b hij hi hj => ?_,
+    fun j c hj hin => ?_⟩
+  · rw [mtm_at_eq m1 child k j hck] at hj
+    exact hnd.1 (List.mem_flatMap.mpr ⟨c, List.mem_of_getElem? hj, hin⟩)
+  · rw [mtm_at_eq m1 child k i hck] at hi
+    rw [mtm_at_eq m1 child k j hck] at hj
+    exact mtm_disj (md_ids d) m1.children hnd.2 i j a b hij hi hj
+  · rw [mtm_at_eq m1 child k j hck] at hj
+    have hc := mtm_nodup_of_mem (md_ids d) m1.children hnd.2 c (List.mem_of_getElem? hj)
+    rw [mrm_md_ids_eq, List.nodup_cons] at hc
+    exact hc.1 hin
+
+theorem mtm_rebHeapOf_ctr (T : Nat) (d : Nat) (m : MMetaSlab (MTree r d)) (x : Option DX) (l rr : MTree r d)
+    (li ri : Nat) (b : Bool) (s : MHSt r) : (mrm_rebHeapOf T d m x l rr li ri b s).ctx.ctr = s.ctx.ctr := by
+  simp only [mrm_rebHeapOf]
+  split <;> rfl
+
+theorem mtm_morHeap_ctr (T : Nat) (d : Nat) (m : MMetaSlab (MTree r d)) (x : Option DX) (child : MTree r d)
+    (k u : Nat) (s : MHSt r) : (mrm_morHeap T d m x child k u s).ctx.ctr = s.ctx.ctr := by
+  simp only [mrm_morHeap]
+  repeat' split
+  all_goals first | rfl | exact mtm_rebHeapOf_ctr T d m x _ _ _ _ _ s
+
+/-- `mds_Post` from the two facts about the heap after the call -/
+theorem mtm_Post {Q : (d : Nat) → MTree r d → Prop} {addr : Nat} {s1 s' : MHSt r} {d : Nat}
+    {m1 m' : MMetaSlab (MTree r d)} {x : Option DX} {child : MTree r d} {k : Nat}
+    (hp : mds_Pre Q addr s1 d m1) (hck : m1.children[k]? = some child)
+    (hpost : mrm_MorPost s1 s' d m1 x child m') (hid : mtm_IdPost s' d m1 m') (hctr : s'.ctx.ctr = s1.ctx.ctr) :
+    mds_Post addr s1 s' (d + 1) m1 m' x := by
+  obtain ⟨hroot, hids⟩ := hid
+  have hI : md_ids (d + 1) m1 = m1.hdr.id :: m1.children.flatMap (md_ids d) := rfl
+  have hsub : ∀ id ∈ md_ids (d + 1) m', id ∈ md_ids (d + 1) m1 := by
+    intro id hin
+    rcases hids with hperm | ⟨rid, hperm, _⟩
+    · exact hperm.subset hin
+    · exact hperm.subset (List.mem_cons_of_mem _ hin)
+  have hchild : ∀ c ∈ m1.children, (MTree.hdr d c).id ∈ md_ids (d + 1) m1 := fun c hc => by
+    rw [hI]; exact List.mem_cons_of_mem _ (List.mem_flatMap.mpr ⟨c, hc, mrm_hid d c⟩)
+  have hframe : ∀ id, id ∉ md_ids (d + 1) m1 → s'.heap id = s1.heap id := by
+    intro id hn
+    refine hpost.2.2 id (fun e => hn (e ▸ (hI ▸ List.mem_cons_self))) (fun e => hn ?_) (fun j c hj e => hn ?_)
+    · rw [e]; exact hchild child (List.mem_of_getElem? hck)
+    · rw [e]; exact hchild c (List.mem_of_getElem? hj)
+  have hsome : ∀ id ∈ md_ids (d + 1) m1, (s1.heap id).isSome = true := by
+    intro id hin
+    rw [hI] at hin
+    rcases List.mem_cons.mp hin with e | hm
+    · rw [e]; exact hp.rootSome
+    · obtain ⟨c, hc, hic⟩ := List.mem_flatMap.mp hm
+      exact mds_MHolds_some d c none s1.heap (hp.held c hc) id hic
+  refine ⟨?_, fun id hin => hp.addrOk id (hsub id hin), ⟨?_, hpost.2.1⟩, fun id hin hn => absurd (hsub id hin) hn, ?_,
+    fun id hn _ => hframe id hn, fun id ha hlt => ?_⟩
+  · rcases hids with hperm | ⟨rid, hperm, _⟩
+    · exact hperm.nodup_iff.mpr hp.nodup
+    · exact (List.nodup_cons.mp (hperm.nodup_iff.mpr hp.nodup)).2
+  · show s'.heap m'.hdr.id = _
+    rw [hroot]; exact hpost.1
+  · intro id hin hn
+    rcases hids with hperm | ⟨rid, hperm, hgone⟩
+    · exact absurd (hperm.symm.subset hin) hn
+    · rcases List.mem_cons.mp (hperm.symm.subset hin) with e | h'
+      · rw [e]; exact hgone
+      · exact absurd h' hn
+  · have hnone : s1.heap id = none := hp.ff id ha (hctr ▸ hlt)
+    have hn : id ∉ md_ids (d + 1) m1 := fun hin => by
+      have := hsome id hin; rw [hnone] at this; cases this
+    rw [hframe id hn]; exact hnone
+
+end assemble
 
 end Atree.TransEq
